@@ -421,6 +421,10 @@ def run(ck):
     from .radio import Radio
     c08.run_for(ck, Radio(ck), agg)
     poll_levels(ck, agg)
+    # "routing connects all 781 addresses": every router drops frames whose addresses the validator refuses and write() refuses such
+    # destinations, so the validator must accept exactly the address grammar - all of 1..4 digits in 1..5 (R15.3, shared with C15)
+    from . import c15
+    c15.validator(ck, agg)
     agg.flush()
     ck.floor("R04.9", "write() paths reaching the transmitter", n8, 4)
     ck.floor("R04.8", "node_address re-assignment scenarios", n6, 4)
